@@ -469,6 +469,34 @@ func genMetric(r *rand.Rand, mode string) metricIn {
 		}
 		in.Expr = *e
 		in.Evals = []evalIn{{Start: mBase + 50, End: mBase + 50, Step: 0}, {Start: mBase + 40, End: mBase + 60, Step: 10}}
+		if r.Intn(4) == 0 {
+			// short overlapping windows; one label set logs all the time, the others fall silent for longer than the range
+			// and come back: a series that returns is still ONE series at every step
+			rng := e
+			for rng.T != "range" {
+				rng = rng.E
+			}
+			rng.Range = 4
+			in.Recs = in.Recs[:0]
+			id := 0
+			add := func(set [][2][]int, sec int) {
+				id++
+				attrs := append([][2][]int{}, set...)
+				attrs = append(attrs, [2][]int{B("v"), B(pick(r, []string{"1", "2", "3"}))})
+				in.Recs = append(in.Recs, MemRec{ID: id, TS: []int{mBase + sec, 500000000}, Line: B("m"), Attrs: attrs, Doc: [][2][]int{}})
+			}
+			for sec := 1; sec <= 30; sec++ {
+				add(sets[0], sec)
+				for k := 1; k < len(sets); k++ {
+					if sec == 2+k || sec == 14+k || sec == 15+k || sec == 27 {
+						add(sets[k], sec)
+					}
+				}
+			}
+			in.Evals = []evalIn{{Start: mBase + 2, End: mBase + 32, Step: 2}, {Start: mBase + 16, End: mBase + 16, Step: 0}}
+			in.Reps = 2
+			return in
+		}
 		if r.Intn(2) == 0 {
 			// samples keep arriving between the steps (never on a window edge: the range is 100 s)
 			for i := range in.Recs {
